@@ -57,9 +57,27 @@ def enc_series(s, scale):
     return '(L' + ''.join(' (T %s %s)' % (enc_t(t), enc_v(v, scale)) for t, v in zip(s.index, s.values)) + ')'
 
 
+# Index objects: real code very often hands the SAME Index object to several series (`price * 0.5`, `pd.Series(v, price.index)`).
+# On every other protocol line the decoder therefore shares one Index object between all series / frames of that line whose
+# index contents are equal; on the remaining lines every series gets its own object.
+_SHARE = [False, {}]
+
+
+def begin_line(sx):
+    import zlib
+    _SHARE[0] = zlib.crc32(repr(sx).encode()) % 2 == 0
+    _SHARE[1] = {}
+
+
+def _intern(idx):
+    if not _SHARE[0]:
+        return idx
+    return _SHARE[1].setdefault(tuple(idx.asi8), idx)
+
+
 def dec_series(sx, scale):
     rows = sx[1:]
-    idx = pd.DatetimeIndex([dec_t(r[1]) for r in rows])
+    idx = _intern(pd.DatetimeIndex([dec_t(r[1]) for r in rows]))
     return pd.Series([dec_v(r[2], scale) for r in rows], idx, dtype=float)
 
 
@@ -78,7 +96,7 @@ def enc_frame(df, scale):
 
 def dec_frame(sx, scale):
     assert sx[0] == 'T'
-    idx = pd.DatetimeIndex([dec_t(a) for a in sx[1][1:]])
+    idx = _intern(pd.DatetimeIndex([dec_t(a) for a in sx[1][1:]]))
     cols = [(unhex(kv[0]), dec_col(kv[1], scale)) for kv in sx[2][1:]]
     return pd.DataFrame({k: np.array(v, dtype=float) for k, v in cols}, index=idx, columns=[k for k, _ in cols], dtype=float)
 
